@@ -47,6 +47,21 @@ def gen_case(rnd, moduli):
             prog.append(["arrget", reg(), a, idx])
         else:
             prog.append(["arrset", a, idx, elem()])
+    if rnd.random() < 0.4:
+        # copies: Array(row) of a row read with a secret index (or Array(a) of a 1-D array), taken twice; a write into one copy
+        # must not show through the other copy, the row or the original array
+        if two_d:
+            src = reg(); prog.append(["arrget", src, a, [secret(rnd.randrange(0, shape[0]))]])
+            ln = shape[1]
+        else:
+            src = a; ln = shape[0]
+        b1 = reg(); prog.append(["arrcopy", b1, src])
+        b2 = reg(); prog.append(["arrcopy", b2, src])
+        w = secret(rnd.randrange(0, ln)) if rnd.random() < 0.6 else const(rnd.randrange(0, ln))
+        prog.append(["arrset", b1, [w], elem()])
+        for k in range(ln):
+            prog.append(["arrget", reg(), b1, [const(k)]])
+            prog.append(["arrget", reg(), b2, [const(k)]])
     # read everything back with public indexes
     if two_d:
         for i in range(shape[0]):
@@ -72,6 +87,7 @@ def twin(case):
         if op == "input": regs[s[1]] = ins[s[3]]
         elif op == "const": regs[s[1]] = s[2][1]
         elif op == "arrnew": regs[s[1]] = [regs[q] for q in s[2]]
+        elif op == "arrcopy": regs[s[1]] = list(regs[s[2]])
         elif op == "arrget":
             v = regs[s[2]]
             for q in s[3]:
